@@ -37,6 +37,11 @@
 (*                             handed the body in this transaction (a     *)
 (*                             transaction refused before the commit step *)
 (*                             is committed to no target)                 *)
+(*  CommittedAfterCutData      Commit succeeded on a target although the   *)
+(*                             client's connection ended inside DATA,     *)
+(*                             before the final dot: a transaction        *)
+(*                             without a completed DATA is committed to   *)
+(*                             no target                                  *)
 (*  ServerCrash                the server process died (panic outside any *)
 (*                             recover): every open delivery is lost      *)
 (***************************************************************************)
@@ -109,7 +114,8 @@ ObsTgt(o, t, op, r, res, st, ts) ==
                                       !.tx.st[t] = [x \in AllRcpts |->
                                            IF x \in DOMAIN st THEN (IF st[x] = "ok" THEN "ok" ELSE "fail")
                                            ELSE "none"]]
-       [] op = "commit" -> LET o2 == V(o1, res # "ok" \/ o.tx.body[t] # "none", "CommittedWithoutBody")
+       [] op = "commit" -> LET o3 == V(o1, res # "ok" \/ o.tx.body[t] # "none", "CommittedWithoutBody")
+                               o2 == V(o3, res # "ok" \/ ~(o.cmd.v = "DATA" /\ o.cmd.a = "cut"), "CommittedAfterCutData")
                            IN [o2 EXCEPT !.tx.com[t] = IF res = "ok" THEN "ok" ELSE "fail",
                                          !.open[t] = IF ts = "ok" THEN dec(@) ELSE @]
        [] op = "abort"  -> [o1 EXCEPT !.open[t] = IF ts = "ok" THEN dec(@) ELSE @]
